@@ -18,7 +18,11 @@ open SteelVerif.C04
 #print axioms leaf_kinds_have_no_children
 #print axioms slot_pushes_contents
 #print axioms roots_complete
+#print axioms pending_value_is_root
+#print axioms marking_excludes_allocation
 #print axioms edges_cover_proved
 #print axioms mark_sound_tables
 #print axioms mark_sound_full_partial
+#print axioms open_mark_covered
+#print axioms mark_sound_full_covered
 #print axioms gc_transparent_tables
